@@ -298,7 +298,8 @@ def check_uml(sc, res, aspects=('actions', 'offers', 'state')):
     return True, '', ''
 
 
-def standard_scenarios(seed, tier, hosts=('HsmEventProcessor',), spy_options=(False,), n_random=None):
+def standard_scenarios(seed, tier, hosts=('HsmEventProcessor',), spy_options=(False,), n_random=None,
+                       with_queries=False):
     rnd = random.Random(seed * 7919 + 17)
     # deep chains with deep initial transitions first (they need depth, not luck)
     for host in hosts:
@@ -311,9 +312,76 @@ def standard_scenarios(seed, tier, hosts=('HsmEventProcessor',), spy_options=(Fa
                     yield sc
     total = n_random or (1500 if tier == 'quick' else 40000)
     for k in range(total):
+        if with_queries and k % 2:
+            sc = gen_scenario(rnd, n=rnd.randint(2, 7), host=hosts[k % len(hosts)], nevents=rnd.randint(2, 6))
+            sc['queries'] = 'all' if k % 4 == 1 else 'some'
+            yield sc
+            continue
         host = hosts[k % len(hosts)]
         spy = spy_options[(k // len(hosts)) % len(spy_options)]
         if spy and host == 'HsmEventProcessor':
             spy = False
         shape = [None, 'chain', 'bushy'][k % 3]
         yield gen_scenario(rnd, shape=shape, host=host, spy=spy, deep_init=(k % 4 == 0), nevents=rnd.randint(3, 9))
+
+
+class QueryFailure(Exception):
+    pass
+
+
+def query_step(sc):
+    """on_step callback: between steps ask is_in / child_state for every state (and a foreign function) and compare
+    with the active path; the chart must behave afterwards as if nothing had been asked (checked by check_uml)."""
+    parent = sc['parent']
+
+    def foreign(chart, e):
+        return None
+
+    def cb(chart, handlers, raw, names, k, sg):
+        cur = _cur(chart, handlers, raw)
+        if cur is None or cur == -1:
+            return
+        path = ancestors(parent, cur)
+        mode = sc.get('queries')
+        if chart.is_in(foreign):
+            raise QueryFailure('is_in(<not a state>) is True')
+        rq = random.Random(len(parent) * 131 + k * 17 + cur)
+        order = list(range(len(parent)))
+        rq.shuffle(order)
+        strict = [x for x in path[1:] if x != -1]
+        if strict and rq.random() < 0.7:
+            # finish with a query that is answered True high up the path: nothing may be left behind by it
+            last = rq.choice(strict)
+            order = [x for x in order if x != last] + [last]
+        for x in order:
+            if mode == 'some' and (x + k) % 3 and x != order[-1]:
+                continue
+            want = x in path
+            got = chart.is_in(handlers[x])
+            if bool(got) != want:
+                raise QueryFailure('after step %d: is_in(st%d) = %s, current state st%d, path %s' % (k, x, got, cur, path))
+            if x == order[-1] and (k + cur) % 2 == 0:
+                continue            # sometimes the last thing asked is an is_in (child_state re-syncs temp.fun itself)
+            try:
+                ch = chart.child_state(handlers[x])
+                if not want:
+                    raise QueryFailure('after step %d: child_state(st%d) returned although st%d does not enclose st%d'
+                                       % (k, x, x, cur))
+                exp = cur if x == cur else path[path.index(x) - 1]
+                if ch is not handlers[exp] and ch is not raw[exp]:
+                    raise QueryFailure('after step %d: child_state(st%d) is not st%d' % (k, x, exp))
+            except AssertionError:
+                if want:
+                    raise QueryFailure('after step %d: child_state(st%d) failed although it encloses st%d' % (k, x, cur))
+        if chart.state.fun is not handlers[cur] and chart.state.fun is not raw[cur]:
+            raise QueryFailure('queries changed the current state')
+    return cb
+
+
+def run_and_check(sc, aspects):
+    """run one scenario (with queries between steps when sc['queries']) and compare with the reference."""
+    try:
+        res = run_chart(sc, on_step=query_step(sc) if sc.get('queries') else None)
+    except QueryFailure as q:
+        return False, str(q), 'query'
+    return check_uml(sc, res, aspects)
